@@ -30,7 +30,7 @@ impl TryInto<Number> for String {
 
     fn try_into(self) -> Result<Number, Self::Error> {
         match self.parse::<u16>() {
-            Ok(number) => Ok(Number { value: number}),
+            Ok(number) => Number::try_from(number),
             Err(_) => Err(())
         }
     }
